@@ -144,6 +144,23 @@ def total_weight_getter(prog, cls):
         g = prog.pick(fis, "getter")
         if g is not None and "sum(" in ast.unparse(g.node) and weight_attr() in ast.unparse(g.node):
             return g
+    # written out at its uses:  ... / sum(getattr(child, self._weight) for child in self.children)
+    # -> read as the getter it would be (every later rule compares the share / fitness terms against this one term)
+    from ..index import FuncInfo
+
+    dens = []
+    for fis in cls.methods.values():
+        for fi in fis:
+            for n in ast.walk(fi.node):
+                if isinstance(n, ast.BinOp) and isinstance(n.op, (ast.Div, ast.FloorDiv)) and isinstance(n.right, ast.Call) and util.dotted(n.right.func) == "sum" and weight_attr() in ast.unparse(n.right) and "children" in ast.unparse(n.right):
+                    dens.append(n.right)
+    if dens and len({ast.dump(d) for d in dens}) == 1:
+        fn = ast.FunctionDef(name="_total_weight", args=ast.arguments(posonlyargs=[], args=[ast.arg(arg="self")], vararg=None, kwonlyargs=[], kw_defaults=[], kwarg=None, defaults=[]), body=[ast.Return(value=dens[0])], decorator_list=[ast.Name(id="property", ctx=ast.Load())], returns=None, type_comment=None)
+        if hasattr(fn, "type_params"):
+            fn.type_params = []
+        ast.copy_location(fn, dens[0])
+        ast.fix_missing_locations(fn)
+        return FuncInfo("%s.<total weight>" % cls.qual, fn, cls.module, cls)
     return None
 
 
